@@ -105,9 +105,12 @@ class URLMethodsMixin:
         if port:
             url += ':%s' % port
 
+        return url + self._quoted_script_name()
+
+    def _quoted_script_name(self):
         url_encoding = getattr(self, 'url_encoding', 'utf-8')  # webob 1.2b3+
         bscript_name = bytes_(self.script_name, url_encoding)
-        return url + url_quote(bscript_name, PATH_SAFE)
+        return url_quote(bscript_name, PATH_SAFE)
 
     def route_url(self, route_name, *elements, **kw):
         """Generates a fully qualified URL for a named :app:`Pyramid`
@@ -296,7 +299,7 @@ class URLMethodsMixin:
            ``**kw`` values to ``route_path`` will be ignored.
 
         """
-        kw['_app_url'] = self.script_name
+        kw['_app_url'] = self._quoted_script_name()
         return self.route_url(route_name, *elements, **kw)
 
     def resource_url(self, resource, *elements, **kw):
@@ -681,7 +684,7 @@ class URLMethodsMixin:
                 package = caller_package()
                 path = f'{package.__name__}:{path}'
 
-        kw['_app_url'] = self.script_name
+        kw['_app_url'] = self._quoted_script_name()
         return self.static_url(path, **kw)
 
     def current_route_url(self, *elements, **kw):
@@ -776,7 +779,7 @@ class URLMethodsMixin:
            way. As a result, any ``_app_url`` passed within the ``**kw``
            values to ``current_route_path`` will be ignored.
         """
-        kw['_app_url'] = self.script_name
+        kw['_app_url'] = self._quoted_script_name()
         return self.current_route_url(*elements, **kw)
 
 
